@@ -58,7 +58,7 @@ Nullable(t) ==
     [] t.op = "cat"  -> \A j \in 1..Len(t.kids) : Nullable(t.kids[j])
     [] t.op = "alt"  -> \E j \in 1..Len(t.kids) : Nullable(t.kids[j])
     [] t.op = "rep"  -> t.min = 0 \/ Nullable(t.kids[1])
-    [] t.op \in {"grp", "atom", "opt"} -> Nullable(t.kids[1])
+    [] t.op \in {"grp", "atom", "opt", "bal"} -> Nullable(t.kids[1])
     [] t.op = "condref" -> Nullable(t.kids[1]) \/ Nullable(t.kids[2])
     [] t.op = "condexp" -> Nullable(t.kids[2]) \/ Nullable(t.kids[3])
     [] OTHER -> TRUE
